@@ -32,7 +32,7 @@ ASSUMPTIONS = ["construction failures (UBX*Error in every addressing form) are o
 
 def floors(tier):
     return {"route=kw": 1500, "route=payload": 1500, "route=config": 300, "built": 3000,
-            "addr-names": 2500, "odd-clsid": 100}
+            "addr-names": 2500, "odd-clsid": 100, "payload>4092": 20}
 
 
 def plan(tier, seed):
@@ -140,6 +140,8 @@ def check(case) -> core.Out:
             out.classes.append("refused")
             return out
     out.classes.append("built")
+    if case.get("long"):
+        out.classes.append("payload>4092" if len(case["payload"]) < 65536 else "payload>=65536")
     ser = []
     for label, m in builds:
         try:
@@ -221,6 +223,19 @@ def run_shard(spec, ctx, acc):
         core.hyp_search(acc, odd, check, seed=core.derive(ctx["seed"], PROP, "odd"),
                         max_examples=600 if tier == "quick" else 20000, known=known)
         acc.classes["odd-clsid"] += acc.evaluations - before
+        # long payloads: beyond one 4096-byte block, and around the largest
+        # length the 2-byte length field can express (a refusal is fine, a
+        # malformed frame is not)
+        longs = st.builds(
+            lambda n, fill, ck, mode: {"kind": "build", "mode": mode, "clsid": ck, "route": "payload",
+                                       "payload": __import__("hashlib").shake_256(bytes([fill])).digest(n), "defname": None,
+                                       "long": True},
+            st.one_of(st.integers(4090, 4100), st.integers(4093, 9000), st.integers(8185, 8200),
+                      st.sampled_from([65534, 65535, 65536, 65537, 70000])),
+            st.integers(0, 255), st.sampled_from([b"\x04\x02", b"\x77\x01", b"\x02\x15", b"\x0a\x04"]),
+            st.just(0))
+        core.hyp_search(acc, longs, check, seed=core.derive(ctx["seed"], PROP, "long"),
+                        max_examples=40 if tier == "quick" else 400, known=known, shrink=False)
         return
     # config helpers
     db = pyubx2.UBX_CONFIG_DATABASE
